@@ -125,8 +125,16 @@ pub fn read_elog_frame<R: Read>(r: &mut R) -> io::Result<Option<Vec<u8>>> {
         ));
     }
 
-    let mut buf = vec![0u8; len];
-    r.read_exact(&mut buf)?;
+    // Grow with the bytes actually present instead of pre-allocating the declared
+    // length: a 4-byte prefix must not be able to request MAX_FRAME_LEN bytes.
+    let mut buf = Vec::new();
+    let got = r.by_ref().take(len as u64).read_to_end(&mut buf)?;
+    if got != len {
+        return Err(io::Error::new(
+            io::ErrorKind::UnexpectedEof,
+            "failed to fill whole buffer",
+        ));
+    }
     Ok(Some(buf))
 }
 
